@@ -1324,6 +1324,9 @@ pub fn alphabet_c16() -> Vec<SOp> {
         SOp::Delegate { d: 1, v: 1, amt: 4, denom: 0 },
         SOp::Undelegate { d: 0, v: 0, amt: 1, denom: 0 },
         SOp::Undelegate { d: 1, v: 1, amt: 2, denom: 0 },
+        // several unbondings pending from ONE validator, the one queued last the smallest
+        SOp::Undelegate { d: 0, v: 0, amt: 2, denom: 0 },
+        SOp::Undelegate { d: 1, v: 0, amt: 1, denom: 0 },
         SOp::Redelegate { d: 1, src: 1, dst: 0, amt: 1 },
         SOp::ReAddValidator { v: 0 },
         SOp::Advance { secs: 30 },
